@@ -116,8 +116,8 @@ func c02(c *Ctx) {
 			p.UndoMove()
 		}
 	}
-	nPlay := c.Size(600, 15000)
-	nSynth := c.Size(2500, 60000)
+	nPlay := c.Size(600, 120000)
+	nSynth := c.Size(2500, 500000)
 	sampled := 0
 	forEachGame(c, "c02", nPlay, 100, nSynth, func(g Game) {
 		p := engPos(g.Start.FEN())
@@ -134,7 +134,7 @@ func c02(c *Ctx) {
 		}
 	})
 	// whole games compared ply by ply, up to the documented capacity
-	nGames := c.Size(48, 2000)
+	nGames := c.Size(48, 16000)
 	for i := 0; i < nGames; i++ {
 		if !c.Mine(i) {
 			continue
@@ -316,8 +316,8 @@ func c03(c *Ctx) {
 		}
 	}
 	nullChance = 0.3
-	nPlay := c.Size(160, 6000)
-	nSynth := c.Size(700, 25000)
+	nPlay := c.Size(160, 18000)
+	nSynth := c.Size(700, 200000)
 	gi := 0
 	sampled := 0
 	forEachGame(c, "c03", nPlay, 80, nSynth, func(g Game) {
@@ -445,8 +445,8 @@ func c04(c *Ctx) {
 			rep.Inc("fen_with_ep")
 		}
 	}
-	nPlay := c.Size(700, 25000)
-	nSynth := c.Size(2500, 80000)
+	nPlay := c.Size(700, 75000)
+	nSynth := c.Size(2500, 600000)
 	sampled := 0
 	forEachGame(c, "c04", nPlay, 110, nSynth, func(g Game) {
 		p := engPos(g.Start.FEN())
